@@ -150,3 +150,28 @@ package internal
 //@ func (*cluster).watchConnState$1
 //@   prop C15
 //@   ensures [reload-in-background] calls("go (*cluster).reload") == 1
+
+// A new client's connection state is watched (that is what triggers the reload after a connection loss); clients
+// are shared per cluster through the resource manager.
+//@ func (*cluster).newClient
+//@   prop C15
+//@   opaque NewClient
+//@   requires c != nil
+//@   ensures [connect-error] ret(NewClient, 1) != nil ==> result0 == nil && result1 == ret(NewClient, 1) && calls("go (*cluster).watchConnState") == 0
+//@   ensures [state-watched] ret(NewClient, 1) == nil ==> result0 == ret(NewClient, 0) && result1 == nil && calls("go (*cluster).watchConnState") == 1 && arg("go (*cluster).watchConnState", 1) == ret(NewClient, 0)
+//@ func (*cluster).getClient
+//@   prop C15
+//@   opaque Get
+//@   requires c != nil
+//@   ensures [one-client-per-cluster-key] calls(connManager.Get) == 1 && arg(connManager.Get, 1) == c.key
+//@   ensures [manager-error] ret(connManager.Get, 1) != nil ==> result0 == nil && result1 == ret(connManager.Get, 1)
+// load: retried until the snapshot could be read; the record is then replaced by exactly the listed entries (key
+// and value of every kv, in order) and the snapshot's revision is returned for the watch to resume from.
+//@ func (*cluster).load
+//@   prop C15
+//@   opaque context, makeKeyPrefix, handleChanges, Error, Sleep
+//@   requires c != nil
+//@   loop 1 iteration-ensures [failed-read-retried-after-cooldown] calls(cli.Get) == 1 && ret(cli.Get, 1) != nil && calls(time.Sleep) == 1
+//@   loop 2 invariant -1 <= rangeindex
+//@   loop 2 iteration-ensures [every-entry-taken-in-order] len(kvs) == at_head(len(kvs)) + 1 && kvs[at_head(len(kvs))].Key == bytes2str(at_head(resp.Kvs[rangeindex + 1]).Key) && kvs[at_head(len(kvs))].Val == bytes2str(at_head(resp.Kvs[rangeindex + 1]).Value)
+//@   ensures [record-replaced-by-the-snapshot] calls(c.handleChanges) == 1 && arg(c.handleChanges, 1) == key && arg(c.handleChanges, 2) == local(kvs)
